@@ -27,7 +27,7 @@ PROPS = {
         "assumptions": ["extension values are read from the Debug form of the private structs (Decimal{value}, IPAddr{addr,prefix}, DateTime{epoch}, Duration{ms})"],
     },
     "C12": {
-        "streams": [("c12", 12, 2400)],
+        "streams": [("c12", 12, 1200)],
         "definitional": False,
         "rule": "policy-set texts: 28 hand-written surface-syntax policies (trailing commas at every Comma<E> site, templates, annotations, "
                 "every operator, nested unary ops, keywords as keys, long lines, multi-line strings) + generated programs of 1-4 policies (c01 policy "
